@@ -107,6 +107,36 @@ func (s *addrStream) Gen(r *tr.Rng) *tr.Op {
 		cls += fmt.Sprintf("/mut@%d", mutpos)
 		s.push(tr.NewOp(cls, "addr.deposit", "net", net, "version", version, "kind", k1.Kind, "key", tr.Hex(key1), "kind2", k2.Kind, "key2", tr.Hex(k2.Pub),
 			"evm", tr.Hex(evm), "evm2", tr.Hex(evm2), "magic", tr.Hex(magic), "mutpos", mutpos, "mutval", mutval))
+		// cross probes: each verifier is offered what the node hands out (or would plausibly hand out) for the OTHER
+		// combinations of key type and version; it must accept none of them
+		if string(key1) == string(k1.Pub) && len(evm) == 20 && len(magic) == 4 && r.Chance(60) {
+			sys := append([]byte{0x00, 0x14}, goatcrypto.Hash160Sum(k1.Pub)...)
+			if k1.Kind == "1" {
+				sys = append([]byte{0x51, 0x20}, keys.TweakNoScript(k1.Pub)...)
+			}
+			data := append(append([]byte{0x6a, 0x18}, magic...), evm...)
+			var v0 []byte
+			if a, err := bitcointypes.DepositAddressV0(k1.PublicKey(), evm, bitcointypes.BitcoinNetworks[net]); err == nil {
+				if dec, err := btcutil.DecodeAddress(a.EncodeAddress(), bitcointypes.BitcoinNetworks[net]); err == nil {
+					v0 = dec.ScriptAddress()
+					if k1.Kind == "1" {
+						v0 = append([]byte{0x51, 0x20}, v0...)
+					} else {
+						v0 = append([]byte{0x00, 0x20}, v0...)
+					}
+				}
+			}
+			probe := func(c string, ver int, o0, o1 []byte) {
+				s.push(tr.NewOp("verify/k"+k1.Kind+"/"+c, "addr.verify", "version", ver, "kind", k1.Kind, "key", tr.Hex(k1.Pub), "evm", tr.Hex(evm), "magic", tr.Hex(magic),
+					"out0", tr.Hex(o0), "out1", tr.Hex(o1)))
+			}
+			probe("v1-on-key-path-output+data", 1, sys, data) // the version-1 shape: accepted for ECDSA keys only
+			probe("v0-on-key-path-output", 0, sys, nil)        // the relayer's own change script is not a deposit script
+			if v0 != nil {
+				probe("v1-on-v0-script+data", 1, v0, data)
+				probe("v0-on-v0-script", 0, v0, nil)
+			}
+		}
 	case c < 85: // withdrawal address decoding
 		net := netNames[r.Intn(4)]
 		from := net
